@@ -164,7 +164,8 @@ def run(props, work, jobs=8):
         for nme in names:
             for op in S[nme]:
                 f.write(json.dumps(op, separators=(",", ":")) + "\n")
-    runner.execute(script, trace)
+    if runner.execute(script, trace) is not None:
+        raise ToolError("an operation of the self-test sessions did not return within the time limit")
     recorded = [json.loads(l) for l in open(trace)]
     # split back into sessions
     sess = {}
